@@ -16,14 +16,14 @@ ALL_BAR_OPS = {"tick", "inc", "set_message", "println", "suspend", "reset", "fin
 
 
 def fam(name, W=3, H=4, Multi=False, MaxBars=1, D=4, BarOps=("tick",), MpOps=(), MsgShapes=("a",), TextShapes=("T",),
-        Tpls=("M",), Fins=("AndLeave",), Hz=0, DTs=(0,), Base=1, Align="top", M0="e", TabWs=(8,), Pre=0, Once=False, mode="bfs", shards=8):
+        Tpls=("M",), Fins=("AndLeave",), Hz=0, DTs=(0,), Base=1, Align="top", M0="e", TabWs=(8,), Pre=0, Once=False, Tgt="auto", Faults=(), mode="bfs", shards=8):
     return dict(name=name, mode=mode, shards=shards,
                 constants=dict(W=W, H=H, Multi=Multi, MaxBars=MaxBars, D=D, BarOps=set(BarOps), MpOps=set(MpOps),
                                MsgShapes=set(MsgShapes), TextShapes=set(TextShapes), Tpls=set(Tpls), Fins=set(Fins),
-                               Hz=Hz, DTs=set(DTs), Base=Base, Align=Align, M0=M0, TabWs=set(TabWs), Pre=Pre, Once=Once))
+                               Hz=Hz, DTs=set(DTs), Base=Base, Align=Align, M0=M0, TabWs=set(TabWs), Pre=Pre, Once=Once, Tgt=Tgt, Faults=set(Faults)))
 
 
-def screen_check(pid, tier, seed, families, rules_note):
+def screen_check(pid, tier, seed, families, rules_note, need_paints=True, level="model_checking"):
     states = trans = 0
     all_fail = []
     nh = nrec = 0
@@ -63,7 +63,7 @@ def screen_check(pid, tier, seed, families, rules_note):
                                  replay={"driver": "api", "monitor": "Trace_Screen", "rule": v["rule"], "expected_lines": ["".join(chr(c) if 32 <= c < 127 else "<%d>" % c for c in l) for l in v.get("exp", [])],
                                          "history": {"h": 1, "cfg": h["cfg"], "ops": prefix}}))
     # vacuity: the clauses must have been exercised
-    if stats.get("paints", 0) == 0 or stats.get("recs", 0) == 0:
+    if (need_paints and stats.get("paints", 0) == 0) or stats.get("recs", 0) == 0:
         raise vlib.ToolError("vacuous run: no painted frame was validated")
     all_fail.sort(key=lambda x: x["n"])   # shortest witness first per class
     coverage = dict(states=states, transitions=trans, traces_validated_against_impl=nh, records_validated=nrec,
@@ -75,7 +75,10 @@ def screen_check(pid, tier, seed, families, rules_note):
         "templates restricted to the families of Screen!Tpl; texts to the shapes of MC_Screen!Shape",
         "position updates are spaced >= 1 ms in rendering histories (the position bucket is C05's business)",
     ]
-    return dict(level="model_checking", coverage=coverage, assumptions=assumptions, failures=all_fail)
+    if level == "fault_enumeration":
+        coverage["evaluations"] = nh
+        coverage["distinct_nontrivial"] = stats.get("faulted", nh)
+    return dict(level=level, coverage=coverage, assumptions=assumptions, failures=all_fail)
 
 
 def c01(pid, tier, seed):
@@ -180,11 +183,109 @@ def c19(pid, tier, seed):
                         "ScreenOK compares scrollback+viewport with the lines wrapped by the terminal rule and the leading bar lines that fit (Cut)")
 
 
+def c06(pid, tier, seed):
+    q = tier == "quick"
+    ops = ("tick", "inc", "set_message", "set_prefix", "set_length", "println", "finish", "finish_with_message", "finish_and_clear", "abandon",
+           "reset", "force_draw", "set_tab_width", "set_style", "drop", "iter")
+    fams = [
+        fam("hidden_target", W=10, H=5, D=4 if q else 5, BarOps=ops, MsgShapes=("a", "tab"), TextShapes=("T",), Tpls=("MnC",), Fins=("AndLeave", "AndClear"), Tgt="hidden"),
+        fam("not_a_tty", W=10, H=5, D=4 if q else 5, BarOps=ops, MsgShapes=("a",), TextShapes=("T",), Tpls=("MnC",), Fins=("AndLeave", "WithMessage"), Tgt="pipe"),
+        fam("hidden_multi", W=10, H=5, Multi=True, MaxBars=2, D=4 if q else 5, BarOps=ops + ("mp_remove",), MpOps=("mp_println", "mp_clear", "mp_suspend", "insert"),
+            MsgShapes=("a",), TextShapes=("T",), Tpls=("MnC",), Fins=("AndLeave", "AndClear"), Tgt="hidden", M0="id", shards=12),
+        fam("not_a_tty_multi", W=10, H=5, Multi=True, MaxBars=2, D=4, BarOps=("tick", "set_message", "println", "finish", "drop"), MpOps=("mp_println", "mp_clear"),
+            MsgShapes=("a",), TextShapes=("T",), Tpls=("MnC",), Fins=("AndLeave",), Tgt="pipe", M0="id", shards=12),
+        fam("removed_member", W=10, H=8, Multi=True, MaxBars=2, Pre=2, D=5 if q else 7, BarOps=("tick", "inc", "set_message", "println", "finish", "finish_and_clear", "drop", "mp_remove"),
+            MpOps=(), MsgShapes=("a",), TextShapes=("T",), Tpls=("MnC",), Fins=("AndLeave",), M0="id", shards=12),
+    ]
+    return screen_check(pid, tier, seed, fams,
+                        "every history of the family alphabets on the four ways of being hidden; SilentOK = no TermLike output call and no byte on the pipe for any call, "
+                        "GetOK = position/length/message/prefix/is_finished equal the contract's logical state (the same one a visible bar is held to)",
+                        need_paints=False)
+
+
+def c18(pid, tier, seed):
+    q = tier == "quick"
+    fams = [
+        fam("faults_single", W=6, H=5, D=4 if q else 5, BarOps=("tick", "set_message", "println", "suspend", "finish", "finish_and_clear", "set_tab_width", "reset", "drop", "inc"),
+            MsgShapes=("a", "W1"), TextShapes=("T",), Tpls=("MnC",), Fins=("AndLeave",), Faults=(1, 2, 3, 5, 8), M0="id"),
+        fam("faults_multi", W=6, H=8, Multi=True, MaxBars=2, Pre=2, D=5 if q else 6, BarOps=("tick", "set_message", "println", "suspend", "finish", "drop", "set_tab_width"),
+            MpOps=("mp_println", "mp_clear", "mp_suspend"), MsgShapes=("a",), TextShapes=("T",), Tpls=("M",), Fins=("AndLeave",), Faults=(1, 2, 4, 7), M0="id", shards=12),
+    ]
+    return screen_check(pid, tier, seed, fams,
+                        "fault enumeration: every history of the family x every k in Faults x {once, sticky}: the k-th terminal call after the fail_at point returns an io::Error; "
+                        "NoPanic, GetOK (logical state as without the fault, later calls on the same and sibling bars work), ErrReported (MultiProgress::println/clear return Err)",
+                        need_paints=False, level="fault_enumeration")
+
+
+def generic_check(pid, tier, seed, gens, driver, monitor, note, assumptions, level="model_checking", harness_extra=(), kf_fn=None, shards=8):
+    """gens: list of (name, model, constants, mode). Histories from TLC -> harness driver -> TLC monitor."""
+    states = trans = nh = nrec = 0
+    stats, samples, fams, fails = {}, [], [], []
+    for (name, model, constants, mode) in gens:
+        wd = vlib.workdir("%s_%s_gen" % (pid, name))
+        cfg = vlib.cfg_text(constants, invariants=["TypeOK"])
+        if mode == "bfs":
+            out, dist, gen = vlib.run_tlc(model, cfg, wd, workers=4 if tier == "quick" else 8)
+            hs = vlib.histories_from(out)
+        else:
+            outs, dist, gen = vlib.run_tlc_sims(model, cfg, wd, mode[1], mode[2], seed)
+            hs = [h for o in outs for h in vlib.histories_from(o)]
+        if not hs:
+            raise vlib.ToolError("%s generated no behaviours" % name)
+        states += dist
+        trans += gen
+        bad, st, total = vlib.replay_and_judge("%s_%s" % (pid, name), hs, driver, monitor, shards=shards, harness_extra=harness_extra)
+        nh += len(hs)
+        nrec += total
+        for k, v in st.items():
+            stats[k] = stats.get(k, 0) + v
+        if len(samples) < 3:
+            samples.append({"family": name, "behaviour": hs[len(hs) // 2]})
+        fams.append({"family": name, "mode": str(mode), "behaviours": len(hs), "records": total, "verdicts": len(bad), "tlc_distinct_states": dist, "tlc_states_generated": gen})
+        byh = {h["h"]: h for h in hs}
+        for v in bad:
+            h = byh[v["h"]]
+            prefix = h.get("ops", [])[:v["i"]] if "ops" in h else None
+            rep = dict(h)
+            if prefix is not None:
+                rep["ops"] = prefix
+            rep["h"] = 1
+            fails.append(dict(cls="%s/%s" % (v["rule"], v.get("op", "")), rule=v["rule"], n=v["i"],
+                              kf=(kf_fn(h, v) if kf_fn else []),
+                              what="rule=%s op=%s family=%s step=%s" % (v["rule"], v.get("op", ""), name, v["i"]),
+                              replay={"driver": driver, "monitor": monitor, "rule": v["rule"], "verdict": v, "history": rep}))
+    if stats.get("recs", 0) == 0:
+        raise vlib.ToolError("vacuous run: nothing validated")
+    fails.sort(key=lambda x: x["n"])
+    coverage = dict(states=states, transitions=trans, traces_validated_against_impl=nh, records_validated=nrec, samples=samples,
+                    clause_counts=stats, families=fams, rule=note, exhaustive=all(g[3] == "bfs" for g in gens))
+    if level != "model_checking":
+        coverage["evaluations"] = nh
+        coverage["distinct_nontrivial"] = nh
+    return dict(level=level, coverage=coverage, assumptions=assumptions, failures=fails)
+
+
+def c07(pid, tier, seed):
+    q = tier == "quick"
+    gens = [("u64_visible", "MC_Logical", dict(D=3 if q else 4, Target="spy"), "bfs"),
+            ("u64_hidden", "MC_Logical", dict(D=3, Target="hidden"), "bfs"),
+            ("u64_deep", "MC_Logical", dict(D=12, Target="spy"), ("sim", 400 if q else 4000, 14))]
+    return generic_check(pid, tier, seed, gens, "api", "Trace_Logical",
+                         "every sequence of D operations over inc/dec/set_position/update/set_length/inc_length/dec_length/unset_length/reset/finish/abandon with arguments from "
+                         "{0,1,2,2^32,2^63,MAX-1,MAX}; position()/length()/is_finished()/fraction()/rendered {pos} {len} {percent} checked after every call on exact u64 arithmetic (U64.tla)",
+                         ["u64 values are exchanged as five base-2^15 limbs; fraction() is read through ProgressBar::update and scaled by 2^30",
+                          "the concurrent clause (increments from several threads are never lost) is decided by the C08 machinery's atomic-step model, see DESIGN.md"],
+                         shards=12)
+
+
 PROPS = {
     "C01": c01,
     "C02": c02,
     "C03": c03,
     "C04": c04,
+    "C06": c06,
+    "C07": c07,
+    "C18": c18,
     "C16": c16,
     "C19": c19,
 }
